@@ -171,6 +171,7 @@ fn main() {
         "fdec" => vharness::fdec::run(seed, n, thorough, &corpus, &dir),
         "ovs" => vharness::ovs::run(seed, n, thorough, &corpus, &dir),
         "saslx" => vharness::saslx::run(seed, n, thorough, &corpus, &dir),
+        "hreuse" => vharness::hreuse::run(seed, n, thorough, &corpus, &dir),
         other => { eprintln!("unknown sub-harness {other}"); std::process::exit(2); }
     }
 }
